@@ -19,6 +19,7 @@ open CaddyModel.C14
 #print axioms fs_interrupted_startup_keeps_invariant
 #print axioms fs_reachable_invariant
 #print axioms recovery_on_file_storage
+#print axioms fs_root_frozen
 #print axioms recovery_after_any_single_file_fault
 -- config autosave
 #print axioms autosave_always_complete
